@@ -81,8 +81,16 @@ for modname, _ in TABLE:
     for c in m.P.contracts:
         src_contracts.setdefault(c.fn, c)
 
+# optimisation levels: the optimiser legitimately rewrites multi-operation float formulas (x/2 -> x*0.5, reassociation-free
+# strength reduction), which needs bit-precise multiplier/divider equivalence (out of SAT reach); the op table for -O0/-O1/-O3 is
+# therefore the integer/bit, conversion, selection, comparison and single-rounding families
+OPT_RX = re.compile(r'^glm_(bitCount|findLSB|findMSB|bitfield|uaddCarry|umulExtended|imulExtended|toFloat|packHalf|unpackHalf|pack|unpack|'
+                    r'nextFloat|prevFloat|next_float|prev_float|isnan|isinf|sign|abs|floor|ceil|trunc|round_|min|max|clamp|step|lessThan|equal|notEqual|'
+                    r'any|all|not|op_(add|shl|shr|and)|ctor|transpose|conv_|mul_m3x3_m3x3_u32|floatBits|intBits|uintBits)')
 for cfg, b in builds.items():
     for modname, n in picked:
+        if cfg in ('O0', 'O1', 'O3') and not OPT_RX.match(n):
+            continue
         s = d.shims[n].view_sig()
         args = ', '.join(nm for _, nm in s['ins'])
         ens = []
@@ -93,6 +101,11 @@ for cfg, b in builds.items():
                 ens.append(('same_%s_%d_as_default_build' % (on, i), beq(t, '%s[%d]' % (on, i), 'R_%s__o%d_%d(%s)' % (n, k, i, args))))
         sc = src_contracts.get(n)
         req = list(sc.requires) if sc is not None else []
+        if re.match(r'^glm_pack', n):
+            # NaN components are outside every pack format's domain (the float->integer conversion of NaN is undefined)
+            fl = [nm for (t, nm) in s['ins'] if t in ('float', 'double')]
+            if fl:
+                req.append(('components_not_nan', ' && '.join('%s == %s' % (x, x) for x in fl)))
         P.contract(n, '%s shim %s under %s vs default configuration' % (modname, n, ' '.join(CONFIGS.get(cfg, ['-' + cfg]))),
                    requires=req, ensures=ens, build=b, rel=('cfg_default', [n]), unwind=sc.unwind if (sc is not None and sc.unwind < 60) else 12,
                    uf_float=('fmul', 'fdiv', 'sqrt'), timeout=120, tier='quick' if cfg in QUICK_CFG or cfg == 'O0' else 'thorough',
